@@ -268,11 +268,11 @@ PROPS["C15"] = dict(
 PROPS["C20"] = dict(
     title='Observability callbacks are balanced, nested and truthful',
     theorems="Properties/C20.v",
-    proof_files=["Bus/BusModel.v", "Bus/BusRun.v", "Bus/BusInv.v", "Properties/C20.v"],
-    suites=[dict(name="bus20", mod="core", family="bus20", corr="Corr.BusOracle", check="check_bus", shard=25), dict(name="buscon", mod="core", family="buscon", corr="Corr.BusOracle", check="check_bus", shard=25)],
-    level_text="Proved in Coq (bus half): a publish has one start (first) and one complete (last queued by its snapshot); every handler call is opened by the start callback and - normal return or panic anywhere inside - followed by exactly one complete carrying an error exactly when it panicked; skipped handlers have neither; one persist pair per append attempt with the error flag exactly when it failed, none for unencodable events. The oracle checks on every observed run that the callbacks are well bracketed per goroutine and that each complete received the context its start returned (the harness threads tokens through the contexts). The OpenTelemetry adapter half is checked against the SDK's span recorder and manual reader (suite otel).",
+    proof_files=["Bus/BusModel.v", "Bus/BusRun.v", "Bus/BusInv.v", "Otel/OtelModel.v", "Otel/OtelProofs.v", "Properties/C20.v"],
+    suites=[dict(name="bus20", mod="core", family="bus20", corr="Corr.BusOracle", check="check_bus", shard=25), dict(name="buscon", mod="core", family="buscon", corr="Corr.BusOracle", check="check_bus", shard=25), dict(name="otel", mod="core", family="otel", corr="Corr.CorrOtel", check="check20o", shard=50)],
+    level_text="Proved in Coq (bus half): a publish has one start (first) and one complete (last queued by its snapshot); every handler call is opened by the start callback and - normal return or panic anywhere inside - followed by exactly one complete carrying an error exactly when it panicked; skipped handlers have neither; one persist pair per append attempt with the error flag exactly when it failed, none for unencodable events. The oracle checks on every observed run that the callbacks are well bracketed per goroutine and that each complete received the context its start returned (the harness threads tokens through the contexts). Adapter half, proved in Coq on a model of otel/observability.go as a consumer of the callback trace: for every well-paired trace every started span is ended exactly once, a span's parent is the span of the context its start received (so handler and persist spans are children of the publish span), and the six counters equal the numbers of publishes, handler runs, handler errors, persist attempts and persist failures. Tied to the code by free-running workloads (1-3 publishing goroutines, sync/async/once/sequential/filtered/context handlers, panics, nested publishes with and without the handler context, cancelled contexts, failing and unencodable persistence) on a real bus with the real adapter wired to the SDK's span recorder and manual metric reader; the harness counts on its own what happened per publish and the model's spans, parents, statuses and counters are compared with what the SDK recorded (suite otel).",
     level_note='Trusted: Coq kernel + vm_compute; the hand-written small-step model of event_bus.go / persistEvent (flat registry; sync.Mutex, RWMutex, WaitGroup, atomic CAS, goroutine creation and recover are modelled as atomic micro-steps); the controller harness (parks goroutines at user-code callbacks, reads goroutine states from runtime.Stack) and the replay of its log on the model (Bus/BusRun.v); the oracle Corr/BusOracle.v; interleavings strictly inside bus code are not forced by the controller.',
-    rule='cases = seeded random programs (threads, handler/filter/hook bodies that call back into the bus, options) run on the real bus under the controller with a seeded random schedule; every run is replayed on the Coq model along the controller log and judged by the oracle; directed witness programs run first; C20: observability always on, mixes of sync/async/once/sequential/filtered/panicking handlers, cancelled contexts, succeeding and failing persistence; non-trivial = every case; distinct = distinct program+schedule',
+    rule='cases = seeded random programs (threads, handler/filter/hook bodies that call back into the bus, options) run on the real bus under the controller with a seeded random schedule; every run is replayed on the Coq model along the controller log and judged by the oracle; directed witness programs run first; C20: observability always on, mixes of sync/async/once/sequential/filtered/panicking handlers, cancelled contexts, succeeding and failing persistence; non-trivial = every case; distinct = distinct program+schedule; otel suite: 1-5 handlers with random options, 2-7 publishes per goroutine, values decide panics (1 in 4), append failures (1 in 5) and nested publishes',
 )
 
 NOT_CLAIMED = {p: "check not built yet in this session (work in progress; planned per DESIGN.md section 6)" for p in
